@@ -167,3 +167,4 @@ M("c03-render-xlim", "C03", "plot/map.py", "        figure[\"ax\"].set_xlim(xmin
 M("c05-unfix-nextafter", "C05", "plot/histogram2d.py", "        ymax = max(ymax + 0.05 * dy, np.nextafter(ymax, np.inf))", "        ymax = ymax + 0.05 * dy", "automatic upper y limit can coincide with the largest value for ranges a few ulps wide (the original defect)")
 M("c05-unfix-quantity-limit", "C05", "plot/histogram2d.py", "            limit = limit.to(x.unit).magnitude", "            limit = limit.to(x.unit.units).magnitude", "an explicit limit given as a Quantity raises AttributeError again (the original defect)")
 M("c04-unfix-ndarray-predicate", "C04", "io/hilbert.py", "            if isinstance(func_test, Array):\n                func_test = func_test.values\n            inds = np.argwhere(func_test).ravel()\n", "            inds = np.argwhere(func_test.values).ravel()\n", "position predicates answering with a plain ndarray crash the Hilbert pre-selection again (the original defect)")
+M("c04-unfix-empty-sampling", "C04", "io/hilbert.py", "            if len(inds) == 0:\n                # The selected interval is narrower than the sampling (levelmax > 18):\n                # no pre-selection is possible, all files are read\n                return\n", "", "boxes narrower than the 2**18 sampling raise ValueError again at levelmax > 18 (the original defect)")
